@@ -4,13 +4,16 @@ import NurbsVerif.Lemmas.FitSurf
 import NurbsVerif.Lemmas.FitApprox
 import NurbsVerif.Lemmas.FitApproxEval
 import NurbsVerif.Lemmas.FitApproxOne
+import NurbsVerif.Lemmas.FitASurfEval
+import NurbsVerif.Lemmas.FitASurfLsq
 import Mathlib.Algebra.Order.Field.Rat
 
 /-!
 # C11  Fitted curves and surfaces meet interpolation and least-squares conditions
 
 Model: `Geomdl.computeParams`, `computeKnotVector`, `buildCoeffMatrix`, `interpolateCurve`,
-`interpolateSurface`, `approximateCurve` (chord lengths – square roots in the code – are inputs).
+`interpolateSurface`, `approximateCurve`, `approximateSurface` (one least-squares pass: `lsqPass`; chord
+lengths – square roots in the code – are inputs).
 
 Non-singularity of the collocation / normal matrices is a hypothesis throughout ("whenever the
 solver returns").  `Geomdl.lsqError` / `Geomdl.lsqErrorEval` (Lemmas/FitApprox*.lean) are the
@@ -361,6 +364,140 @@ theorem approximateCurve_least_squares (p : ℕ) (pts : List (List K)) (cds : Li
       ≤ lsqErrorEval p (fnOf kv) (computeParams cds) pts d ([pts.headD []] ++ y ++ [pts.getLastD []]) :=
   Geomdl.approximateCurve_least_squares p pts cds nc fl kv cp d hfl hp hpn hnc hlen hpos hP h y hy hyd
 
+/-! ### surface approximation (`fitting.approximate_surface`, A9.7 as coded) -/
+
+/-- `approximate_curve` is ONE least-squares pass (`lsqPass`, the routine `approximate_surface` runs on
+    every data column and then on every line of intermediate points) on the whole data, with the
+    parameters and the knot vector of the curve. -/
+theorem approximateCurve_is_one_pass (p : ℕ) (pts : List (List K)) (cds : List K) (nc : ℕ) (fl : K → ℕ) :
+    approximateCurve p pts cds nc fl =
+      (match lsqPass p (fnOf (computeKnotVector2 p pts.length nc (computeParams cds) fl))
+          (computeKnotVector2 p pts.length nc (computeParams cds) fl).length (computeParams cds) pts nc (pts.headD []).length with
+       | none => none
+       | some cp => some (computeKnotVector2 p pts.length nc (computeParams cds) fl, cp)) :=
+  approximateCurve_eq_lsqPass p pts cds nc fl
+
+/-- **The four corner control points of `approximate_surface` are the four corner data points**
+    (`eu`, `ev`: last index of the direction or the first; layouts `v + size_v·u` of the data and
+    `v + ctrlpts_size_v·u` of the net), and the net has `ncu · ncv` points – whenever the solver passes
+    return, for at least two control points per direction. -/
+theorem approximateSurface_corner_ctrlpts (pu pv su sv : ℕ) (pts : List (List K)) (cdsU cdsV : List (List K))
+    (ncu ncv : ℕ) (fl : K → ℕ) (kvu kvv : List K) (cp : List (List K))
+    (hsu : 1 ≤ su) (hsv : 1 ≤ sv) (hncu : 2 ≤ ncu) (hncv : 2 ≤ ncv)
+    (h : approximateSurface pu pv su sv pts cdsU cdsV ncu ncv fl = some (kvu, kvv, cp)) (eu ev : Bool) :
+    cp.length = ncu * ncv ∧
+    ptsGet cp ((if ev then ncv - 1 else 0) + ncv * (if eu then ncu - 1 else 0))
+      = ptsGet pts ((if ev then sv - 1 else 0) + sv * (if eu then su - 1 else 0)) :=
+  Geomdl.approximateSurface_corner_ctrlpts pu pv su sv pts cdsU cdsV ncu ncv fl kvu kvv cp hsu hsv hncu hncv h eu ev
+
+/-- **requested sizes and degrees**: the two knot vectors are those of `compute_knot_vector2` for the
+    averaged parameters, have `ncu + pu + 1` and `ncv + pv + 1` knots and are clamped; every control
+    point has the dimension of the data. -/
+theorem approximateSurface_shape (pu pv su sv : ℕ) (pts : List (List K)) (cdsU cdsV : List (List K))
+    (ncu ncv : ℕ) (fl : K → ℕ) (kvu kvv : List K) (cp : List (List K)) (d : ℕ)
+    (hsu : 1 ≤ su) (hsv : 1 ≤ sv) (hncu : 2 ≤ ncu) (hpu : pu + 1 ≤ ncu) (hpv : pv + 1 ≤ ncv)
+    (hlen : pts.length = su * sv) (hP : NetOk d pts)
+    (h : approximateSurface pu pv su sv pts cdsU cdsV ncu ncv fl = some (kvu, kvv, cp)) :
+    kvu = computeKnotVector2 pu su ncu (averageParams cdsU su) fl ∧
+    kvv = computeKnotVector2 pv sv ncv (averageParams cdsV sv) fl ∧
+    kvu.length = ncu + pu + 1 ∧ kvv.length = ncv + pv + 1 ∧
+    (∀ i, i ≤ pu → fnOf kvu i = 0) ∧ (∀ i, ncu ≤ i → fnOf kvu i = 1) ∧
+    (∀ i, i ≤ pv → fnOf kvv i = 0) ∧ (∀ i, ncv ≤ i → fnOf kvv i = 1) ∧ NetOk d cp := by
+  obtain ⟨h1, h2, _⟩ := approximateSurface_struct pu pv su sv pts cdsU cdsV ncu ncv fl kvu kvv cp h
+  have hN := approximateSurface_netOk pu pv su sv pts cdsU cdsV ncu ncv fl kvu kvv cp d hsu hsv hncu hlen hP h
+  subst h1; subst h2
+  exact ⟨rfl, rfl, computeKnotVector2_length pu _ ncu _ fl hpu, computeKnotVector2_length pv _ ncv _ fl hpv,
+    (computeKnotVector2_clamped pu _ ncu _ fl hpu).1, (computeKnotVector2_clamped pu _ ncu _ fl hpu).2,
+    (computeKnotVector2_clamped pv _ ncv _ fl hpv).1, (computeKnotVector2_clamped pv _ ncv _ fl hpv).2, hN⟩
+
+/-- **The approximating surface interpolates the four corner data points**: `S(0|1, 0|1)` (evaluated
+    surface, through the span search, every coordinate) is the corner data point – whenever the solver
+    passes return, for knot vectors that are non-decreasing with non-empty first and last spans
+    (clamped-corner theorem of C18). -/
+theorem approximateSurface_interpolates_corners (pu pv su sv : ℕ) (pts : List (List K)) (cdsU cdsV : List (List K))
+    (ncu ncv : ℕ) (fl : K → ℕ) (kvu kvv : List K) (cp : List (List K)) (d : ℕ)
+    (hsu : 1 ≤ su) (hsv : 1 ≤ sv) (hncu : 2 ≤ ncu) (hncv : 2 ≤ ncv) (hpu : pu + 1 ≤ ncu) (hpv : pv + 1 ≤ ncv)
+    (hlen : pts.length = su * sv) (hP : NetOk d pts)
+    (h : approximateSurface pu pv su sv pts cdsU cdsV ncu ncv fl = some (kvu, kvv, cp))
+    (hmu : Monotone (fnOf kvu)) (hu0 : 0 < fnOf kvu (pu + 1)) (hu1 : fnOf kvu (ncu - 1) < 1)
+    (hmv : Monotone (fnOf kvv)) (hv0 : 0 < fnOf kvv (pv + 1)) (hv1 : fnOf kvv (ncv - 1) < 1)
+    (eu ev : Bool) (c : ℕ) :
+    (surfacePoint pu pv (fnOf kvu) (fnOf kvv) ncu ncv cp (if eu then 1 else 0) (if ev then 1 else 0)).getD c 0
+      = (ptsGet pts ((if ev then sv - 1 else 0) + sv * (if eu then su - 1 else 0))).getD c 0 :=
+  Geomdl.approximateSurface_interpolates_corners pu pv su sv pts cdsU cdsV ncu ncv fl kvu kvv cp d hsu hsv hncu hncv
+    hpu hpv hlen hP h hmu hu0 hu1 hmv hv0 hv1 eu ev c
+
+/-- **Corner interpolation for data whose consecutive points are distinct** (every chord length
+    positive, one chord list per data line): no hypothesis on the knot vectors is left – whenever the
+    solver passes return, `S(0|1, 0|1)` is the corner data point (`knotVector2_monotone`,
+    `knotVector2_ends` for the averaged parameters of `compute_params_surface`). -/
+theorem approximateSurface_interpolates_corners_distinct (pu pv su sv : ℕ) (pts : List (List K))
+    (cdsU cdsV : List (List K)) (ncu ncv : ℕ) (fl : K → ℕ) (kvu kvv : List K) (cp : List (List K)) (d : ℕ)
+    (hfl : IsFloor fl) (hpu1 : 1 ≤ pu) (hpv1 : 1 ≤ pv) (hpu : pu + 1 ≤ ncu) (hpv : pv + 1 ≤ ncv)
+    (hncu : ncu ≤ su) (hncv : ncv ≤ sv) (hlen : pts.length = su * sv) (hP : NetOk d pts)
+    (hcU : cdsU ≠ [] ∧ ∀ c ∈ cdsU, c.length + 1 = su ∧ ∀ x ∈ c, 0 < x)
+    (hcV : cdsV ≠ [] ∧ ∀ c ∈ cdsV, c.length + 1 = sv ∧ ∀ x ∈ c, 0 < x)
+    (h : approximateSurface pu pv su sv pts cdsU cdsV ncu ncv fl = some (kvu, kvv, cp))
+    (eu ev : Bool) (c : ℕ) :
+    (surfacePoint pu pv (fnOf kvu) (fnOf kvv) ncu ncv cp (if eu then 1 else 0) (if ev then 1 else 0)).getD c 0
+      = (ptsGet pts ((if ev then sv - 1 else 0) + sv * (if eu then su - 1 else 0))).getD c 0 :=
+  Geomdl.approximateSurface_interpolates_corners_distinct pu pv su sv pts cdsU cdsV ncu ncv fl kvu kvv cp d hfl hpu1 hpv1
+    hpu hpv hncu hncv hlen hP hcU hcV h eu ev c
+
+/-- The averaged parameters of `compute_params_surface` are strictly increasing when every chord length
+    is positive. -/
+theorem surface_params_strictMono (cdsList : List (List K)) (n : ℕ) (hne : cdsList ≠ [])
+    (h : ∀ c ∈ cdsList, c.length + 1 = n ∧ ∀ x ∈ c, 0 < x) (i j : ℕ) (hij : i < j) (hj : j < n) :
+    (averageParams cdsList n).getD i 0 < (averageParams cdsList n).getD j 0 :=
+  averageParams_strictMono cdsList n hne h i j hij hj
+
+/-- **Both passes of `approximate_surface` solve their normal equations** (A9.7 is two families of curve
+    fits): whenever it returns there are `sv` column polygons `cols` (`ncu` points each) and `ncu` row
+    polygons `rows` whose concatenation is the control net, such that column `j` is a least-squares
+    polygon (`Geomdl.IsLsqLine`: the two ends of the line kept, the interior points solve
+    `NᵀN x = Nᵀ Rk` coordinate by coordinate, `N` as computed by `basis_function_one`) of the data line
+    `Q_{0,j} … Q_{su−1,j}` for the parameters `ū` and the knot vector `kvu`, and row `i` is a least-squares
+    polygon of the line formed by the `i`-th points of the columns for `v̄` and `kvv`. -/
+theorem approximateSurface_passes_normal_equations (pu pv su sv : ℕ) (pts : List (List K)) (cdsU cdsV : List (List K))
+    (ncu ncv : ℕ) (fl : K → ℕ) (kvu kvv : List K) (cp : List (List K)) (hncu : ncu ≤ su) (hncv : ncv ≤ sv)
+    (h : approximateSurface pu pv su sv pts cdsU cdsV ncu ncv fl = some (kvu, kvv, cp)) :
+    ∃ cols rows : List (List (List K)), cols.length = sv ∧ rows.length = ncu ∧ cp = rows.flatten ∧
+      (∀ j, j < sv → IsLsqLine pu (fnOf kvu) kvu.length (averageParams cdsU su)
+          ((List.range su).map (fun i => pts.getD (j + sv * i) [])) ncu (pts.headD []).length (cols.getD j [])) ∧
+      (∀ i, i < ncu → IsLsqLine pv (fnOf kvv) kvv.length (averageParams cdsV sv)
+          ((List.range sv).map (fun j => (cols.getD j []).getD i [])) ncv (pts.headD []).length (rows.getD i [])) :=
+  approximateSurface_passes_lsq pu pv su sv pts cdsU cdsV ncu ncv fl kvu kvv cp hncu hncv h
+
+/-- … what `IsLsqLine` says, written out: the polygon is `Q₀ :: x ++ [Q_m]` and `x` solves the normal
+    equations of every coordinate … -/
+theorem lsqLine_normal_equations (p : ℕ) (U : ℕ → K) (m : ℕ) (uk : List K) (line : List (List K)) (nc dim : ℕ)
+    (cp : List (List K)) (h : IsLsqLine p U m uk line nc dim cp) :
+    ∃ x : List (List K), cp = [line.headD []] ++ x ++ [line.getLastD []] ∧ x.length = nc - 2 ∧
+      ∀ c, c < dim → ∀ i, i < nc - 2 →
+        ∑ j ∈ range (nc - 2),
+            (∑ k ∈ range (line.length - 2),
+              basisFunOne p U m (1 + i) (uk.getD (1 + k) 0) * basisFunOne p U m (1 + j) (uk.getD (1 + k) 0)) * ent x j c
+          = ∑ k ∈ range (line.length - 2),
+              basisFunOne p U m (1 + i) (uk.getD (1 + k) 0)
+                * ((line.getD (1 + k) []).getD c 0
+                    - (line.headD []).getD c 0 * basisFunOne p U m 0 (uk.getD (1 + k) 0)
+                    - (line.getLastD []).getD c 0 * basisFunOne p U m (nc - 1) (uk.getD (1 + k) 0)) := by
+  obtain ⟨x, h1, h2, _, h4⟩ := h
+  exact ⟨x, h1, h2, h4⟩
+
+/-- … hence each pass **minimises** the summed squared residual of its line,
+    `Σ_{k=1}^{nd−2} Σ_c (Q_{k,c} − Σ_j N_{j,p}(ū_k) P_{j,c})²` (`Geomdl.lsqError`), among all polygons with the
+    same two ends and `nc − 2` interior points, and its residual is orthogonal to every interior basis
+    function. -/
+theorem lsqLine_minimises (p : ℕ) (U : ℕ → K) (m : ℕ) (uk : List K) (line : List (List K)) (nc dim : ℕ)
+    (cp : List (List K)) (h : IsLsqLine p U m uk line nc dim cp) (hnc2 : 2 ≤ nc) :
+    (∀ y : List (List K), y.length = nc - 2 →
+      lsqError p U m uk line dim cp ≤ lsqError p U m uk line dim ([line.headD []] ++ y ++ [line.getLastD []])) ∧
+    (∀ i, 1 ≤ i → i + 1 < nc → ∀ c, c < dim →
+      ∑ k ∈ Ico 1 (line.length - 1), basisFunOne p U m i (uk.getD k 0) *
+        ((ptsGet line k).getD c 0 - ∑ j ∈ range cp.length, basisFunOne p U m j (uk.getD k 0) * (ptsGet cp j).getD c 0) = 0) :=
+  ⟨fun y hy => h.minimises hnc2 y hy, fun i hi1 hi2 c hc => h.orthogonal hnc2 i hi1 hi2 c hc⟩
+
 /-! ### non-vacuity: the hypotheses hold on concrete inputs (exact rationals) -/
 
 /-- the floor used by the driver satisfies `IsFloor` -/
@@ -422,5 +559,24 @@ example : ∀ k, 1 ≤ k → k + 1 < 7 → ∀ j, j < 4 →
   have hk : k = 1 ∨ k = 2 ∨ k = 3 ∨ k = 4 ∨ k = 5 := by omega
   have hj' : j = 0 ∨ j = 1 ∨ j = 2 ∨ j = 3 := by omega
   rcases hk with rfl | rfl | rfl | rfl | rfl <;> rcases hj' with rfl | rfl | rfl | rfl <;> decide +kernel
+
+/-- surface approximation (4 × 5 data points, degrees 2 and 1, 3 × 4 control points, positive chord
+    lengths): the solver passes return, the knot vectors are `[0,0,0,1,1,1]` and sorted with non-empty end
+    spans, 12 control points, the corner control points are the corner data points -/
+example :
+    (match approximateSurface 2 1 4 5
+        ([[0,0,0],[0,1,1],[0,2,0],[0,3,2],[0,4,1], [1,0,1],[1,1,2],[1,2,1],[1,3,0],[1,4,2],
+          [2,0,0],[2,1,1],[2,2,3],[2,3,1],[2,4,0], [3,0,1],[3,1,0],[3,2,2],[3,3,1],[3,4,3]] : List (List ℚ))
+        [[1,1,2],[1,2,1],[2,1,1],[1,3,1],[1,1,1]] [[1,1,2,1],[1,2,1,1],[2,1,1,1],[1,1,1,2]] 3 4
+        (fun x => x.floor.toNat) with
+     | some (ku, kv, cp) => decide (ku = [0,0,0,1,1,1]) && isSortedB kv && decide (0 < fnOf kv 2) && decide (fnOf kv 3 < 1)
+          && decide (cp.length = 12) && decide (cp.getD 0 [] = [0,0,0]) && decide (cp.getD 3 [] = [0,4,1])
+          && decide (cp.getD 8 [] = [3,0,1]) && decide (cp.getD 11 [] = [3,4,3])
+     | none => false) = true := by decide +kernel
+
+/-- the chord-length hypotheses of `approximateSurface_interpolates_corners_distinct` on these data -/
+example : (([[1,1,2],[1,2,1],[2,1,1],[1,3,1],[1,1,1]] : List (List ℚ)) ≠ [] ∧
+    ∀ c ∈ ([[1,1,2],[1,2,1],[2,1,1],[1,3,1],[1,1,1]] : List (List ℚ)), c.length + 1 = 4 ∧ ∀ x ∈ c, 0 < x) := by
+  decide +kernel
 
 end C11
